@@ -830,3 +830,53 @@ func init() {
 		Trigger:  triggerData,
 	})
 }
+
+// ---------------------------------------------------------------------------
+// C19: throttles
+
+func init() {
+	register(&SimProp{
+		ID:       "C19",
+		Profiles: []*Profile{{Name: "c19-throttle", MaxConns: 32}},
+		Config:   c19Config,
+		Custom:   c19Scenario,
+		Monitors: func() []Monitor { return []Monitor{NewMonC19(), NewMonC07()} },
+		Trigger:  triggerC19,
+	})
+}
+
+// triggerC19 recognises the history of the known finding "deferred-reaccess-
+// unthrottled": a system.reset with access patterns reached the gateway while
+// access re-checks of an earlier reset were still outstanding; the deferred
+// re-checks are later issued outside any throttle.
+func triggerC19(w *World, v Violation) string {
+	if v.Class != "throttle_bound_exceeded" {
+		return ""
+	}
+	pending := 0
+	resets := 0
+	for _, e := range w.Log() {
+		if e.T >= v.T {
+			break
+		}
+		switch e.Kind {
+		case "mq_req":
+			if resets > 0 {
+				pending++
+			}
+		case "mq_complete":
+			if resets > 0 && pending > 0 {
+				pending--
+			}
+		case "mq_ev":
+			if e.Subject == "system.reset" && strings.Contains(string(e.Payload), `"access"`) {
+				// the re-checks of the earlier reset are outstanding, or still waiting in its throttle
+				if resets > 0 && pending > 0 {
+					return "deferred-reaccess-unthrottled"
+				}
+				resets++
+			}
+		}
+	}
+	return ""
+}
